@@ -391,7 +391,7 @@ func (x *Exec) panicSite(fr *Frame, st *State, ins *ssa.Panic) {
 	if fr.depth > 0 {
 		name = fr.fn.Name() + ":" + name
 	}
-	x.oblige(st, "unreachable", name, x.c.Props, tFalse, "explicit panic is unreachable: "+msg, posStr(x.prog.fset, ins.Pos()))
+	x.oblige(st, "unreachable", name, x.safetyProps(), tFalse, "explicit panic is unreachable: "+msg, posStr(x.prog.fset, ins.Pos()))
 }
 
 // nonEscaping reports whether an Alloc is only used by direct loads and stores.
@@ -426,7 +426,7 @@ func (x *Exec) nilCheck(fr *Frame, st *State, v Val, ins ssa.Instruction, what s
 	if fr.depth > 0 {
 		name = fr.fn.Name() + ":" + name
 	}
-	x.oblige(st, "nil", name, x.c.Props, g, "nil dereference: "+what, posStr(x.prog.fset, ins.Pos()))
+	x.oblige(st, "nil", name, x.safetyProps(), g, "nil dereference: "+what, posStr(x.prog.fset, ins.Pos()))
 	st.assume(g)
 }
 
@@ -524,7 +524,7 @@ func (x *Exec) step(fr *Frame, st *State, ins ssa.Instruction) {
 		ln := x.val(fr, st, ins.Len).(Sc).T
 		cp := x.val(fr, st, ins.Cap).(Sc).T
 		name := x.siteName(fr.fn, "make", ins)
-		x.oblige(st, "make", name, x.c.Props, mkAnd(app(sBool, "<=", intLit(0), ln), app(sBool, "<=", ln, cp), app(sBool, "<=", cp, bigIntLit("281474976710656"))), "make([]T, len, cap): 0 <= len <= cap <= 2^48", posStr(x.prog.fset, ins.Pos()))
+		x.oblige(st, "make", name, x.safetyProps(), mkAnd(app(sBool, "<=", intLit(0), ln), app(sBool, "<=", ln, cp), app(sBool, "<=", cp, bigIntLit("281474976710656"))), "make([]T, len, cap): 0 <= len <= cap <= 2^48", posStr(x.prog.fset, ins.Pos()))
 		st.assume(mkAnd(app(sBool, "<=", intLit(0), ln), app(sBool, "<=", ln, cp)))
 		r := x.newRef(st, "slice")
 		et := ins.Type().Underlying().(*types.Slice).Elem()
@@ -661,7 +661,7 @@ func (x *Exec) boundsCheck(fr *Frame, st *State, ins ssa.Instruction, idx, ln Te
 		name = fr.fn.Name() + ":" + name
 	}
 	g := mkAnd(app(sBool, "<=", intLit(0), idx), app(sBool, "<", idx, ln))
-	x.oblige(st, "bounds", name, x.c.Props, g, "index in range", posStr(x.prog.fset, ins.Pos()))
+	x.oblige(st, "bounds", name, x.safetyProps(), g, "index in range", posStr(x.prog.fset, ins.Pos()))
 	st.assume(g)
 }
 
@@ -845,7 +845,7 @@ func (x *Exec) binop(fr *Frame, st *State, op token.Token, a, b Val, opdType, re
 			return Sc{r, resType}
 		case token.QUO, token.REM:
 			name := x.siteName(fr.fn, "div", ins)
-			x.oblige(st, "div", name, x.c.Props, mkNot(mkEq(tb, intLit(0))), "integer division by zero", posStr(x.prog.fset, ins.Pos()))
+			x.oblige(st, "div", name, x.safetyProps(), mkNot(mkEq(tb, intLit(0))), "integer division by zero", posStr(x.prog.fset, ins.Pos()))
 			st.assume(mkNot(mkEq(tb, intLit(0))))
 			if op == token.QUO {
 				return Sc{x.def(st, "i", app(sInt, "gdiv", ta, tb)), resType}
@@ -911,7 +911,7 @@ func (x *Exec) wrapInt(st *State, r Term, t types.Type, fr *Frame, ins ssa.Instr
 		if x.c.Opts["overflow"] != "" && fr.depth == 0 {
 			name := x.siteName(fr.fn, "overflow", ins)
 			g := mkAnd(app(sBool, "<=", bigIntLit("-9223372036854775808"), r), app(sBool, "<=", r, bigIntLit("9223372036854775807")))
-			x.oblige(st, "overflow", name, x.c.Props, g, "no int overflow in "+op, posStr(x.prog.fset, ins.Pos()))
+			x.oblige(st, "overflow", name, x.safetyProps(), g, "no int overflow in "+op, posStr(x.prog.fset, ins.Pos()))
 		}
 	}
 	return r
@@ -1037,7 +1037,7 @@ func (x *Exec) typeAssert(fr *Frame, st *State, ins *ssa.TypeAssert) {
 			fr.vals[ins] = Tup{[]Val{Sc{it, ins.AssertedType}, Sc{ok, types.Typ[types.Bool]}}}
 		} else {
 			name := x.siteName(fr.fn, "typeassert", ins)
-			x.oblige(st, "typeassert", name, x.c.Props, ok, "type assertion to "+typeStr(ins.AssertedType), posStr(x.prog.fset, ins.Pos()))
+			x.oblige(st, "typeassert", name, x.safetyProps(), ok, "type assertion to "+typeStr(ins.AssertedType), posStr(x.prog.fset, ins.Pos()))
 			st.assume(ok)
 			fr.vals[ins] = Sc{it, ins.AssertedType}
 		}
@@ -1064,7 +1064,7 @@ func (x *Exec) typeAssert(fr *Frame, st *State, ins *ssa.TypeAssert) {
 	if fr.depth > 0 {
 		name = fr.fn.Name() + ":" + name
 	}
-	x.oblige(st, "typeassert", name, x.c.Props, ok, "type assertion "+ins.X.Name()+".("+typeStr(ins.AssertedType)+")", posStr(x.prog.fset, ins.Pos()))
+	x.oblige(st, "typeassert", name, x.safetyProps(), ok, "type assertion "+ins.X.Name()+".("+typeStr(ins.AssertedType)+")", posStr(x.prog.fset, ins.Pos()))
 	st.assume(ok)
 	fr.vals[ins] = v
 }
@@ -1099,7 +1099,7 @@ func (x *Exec) sliceOp(fr *Frame, st *State, ins *ssa.Slice) {
 			c = *mx
 		}
 		g := mkAnd(app(sBool, "<=", intLit(0), l), app(sBool, "<=", l, h), app(sBool, "<=", h, c), app(sBool, "<=", c, xv.Cap))
-		x.oblige(st, "bounds", name, x.c.Props, g, "slice bounds in range", posStr(x.prog.fset, ins.Pos()))
+		x.oblige(st, "bounds", name, x.safetyProps(), g, "slice bounds in range", posStr(x.prog.fset, ins.Pos()))
 		st.assume(g)
 		fr.vals[ins] = Sl{xv.Base, x.def(st, "so", app(sInt, "+", xv.Off, l)), x.def(st, "sl", app(sInt, "-", h, l)), x.def(st, "sc", app(sInt, "-", c, l)), ins.Type()}
 	case Sc:
@@ -1114,7 +1114,7 @@ func (x *Exec) sliceOp(fr *Frame, st *State, ins *ssa.Slice) {
 				h = *hi
 			}
 			g := mkAnd(app(sBool, "<=", intLit(0), l), app(sBool, "<=", l, h), app(sBool, "<=", h, ln))
-			x.oblige(st, "bounds", name, x.c.Props, g, "string slice bounds in range", posStr(x.prog.fset, ins.Pos()))
+			x.oblige(st, "bounds", name, x.safetyProps(), g, "string slice bounds in range", posStr(x.prog.fset, ins.Pos()))
 			st.assume(g)
 			r := x.def(st, "sub", app(sStr, "str.sub_", xv.T, l, h))
 			st.assume(mkEq(app(sInt, "str.len_", r), app(sInt, "-", h, l)))
@@ -1135,7 +1135,7 @@ func (x *Exec) sliceOp(fr *Frame, st *State, ins *ssa.Slice) {
 			h = *hi
 		}
 		g := mkAnd(app(sBool, "<=", intLit(0), l), app(sBool, "<=", l, h), app(sBool, "<=", h, n))
-		x.oblige(st, "bounds", name, x.c.Props, g, "array slice bounds in range", posStr(x.prog.fset, ins.Pos()))
+		x.oblige(st, "bounds", name, x.safetyProps(), g, "array slice bounds in range", posStr(x.prog.fset, ins.Pos()))
 		st.assume(g)
 		fr.vals[ins] = Sl{p.Idx[0], l, x.def(st, "sl", app(sInt, "-", h, l)), x.def(st, "sc", app(sInt, "-", n, l)), ins.Type()}
 	default:
@@ -1511,7 +1511,22 @@ func (x *Exec) checkTypeInvs(fr *Frame, st *State, where string) {
 	if fr.depth > 0 {
 		return
 	}
+	var keep []dirtyObj
+	defer func() { st.dirtyKeep = keep }()
 	for _, d := range st.dirty {
+		if where != "at return" {
+			// an object this activation is still building and has not let escape need not be consistent yet
+			local := false
+			for _, l := range st.locals {
+				if l.S == d.ref.S {
+					local = true
+				}
+			}
+			if local {
+				keep = append(keep, d)
+				continue
+			}
+		}
 		for i, inv := range x.prog.specs.TypeInv[d.typ] {
 			named := d.typ
 			nt, ok := x.prog.namedType(d.typ)
@@ -1521,7 +1536,7 @@ func (x *Exec) checkTypeInvs(fr *Frame, st *State, where string) {
 			p := Ptr{Prefix: named, Idx: []Term{d.ref}, Elem: nt, Obj: true, GT: types.NewPointer(nt)}
 			t := x.evalTypeInv(st, inv, p)
 			short := d.typ[strings.Index(d.typ, ".")+1:]
-			x.oblige(st, "typeinv", fmt.Sprintf("typeinv-%s#%d", short, i+1), x.c.Props, t, "object invariant of "+d.typ+" re-established "+where+": "+inv.Text, "")
+			x.oblige(st, "typeinv", fmt.Sprintf("typeinv-%s#%d", short, i+1), x.safetyProps(), t, "object invariant of "+d.typ+" re-established "+where+": "+inv.Text, "")
 		}
 	}
 }
